@@ -72,7 +72,9 @@ FINGERPRINTS = {
     # first shape: stale CONFIRMED results are dropped (fix a139b14); second: the shape before it
     "stepup/core/executor.py:Executor._run_hash_job": ("1c00d122f33c1535", "d18aa73b3fe5cff5"),
     "stepup/core/executor.py:Executor.try_skip_job": ("decd09f009978afd",),
-    "stepup/core/executor.py:Executor.validate_dynamic_job": ("5c3f511f7670d82c",),
+    # first shape: an unchanged validation leaves the step PENDING *and deferred* (fix d760e3e, D36);
+    # second: PENDING without the flag (the same job is dispatched again at once)
+    "stepup/core/executor.py:Executor.validate_dynamic_job": ("c64f8ccfa4c864d5", "5c3f511f7670d82c"),
     "stepup/core/executor.py:Executor._reset_step_to_pending": ("d191ea381b11a367",),
     "stepup/core/workflow.py:Workflow.mark_step_pending": ("a8064bde6c65d522",),
     "stepup/core/workflow.py:Workflow.mark_consuming_steps_pending": ("ea8f95325e91cd94",),
@@ -316,6 +318,25 @@ def _env_rescan_facts(tree):
     return stores
 
 
+def _validate_unchanged_deferred(tree):
+    """validate_dynamic_job, inputs unchanged: the one transaction after the digest comparison sets the step
+    PENDING; is the deferred flag passed?"""
+    fn = find_function(tree, "validate_dynamic_job", "Executor")
+    calls = [n for n in ast.walk(fn) if isinstance(n, ast.Call) and isinstance(n.func, ast.Attribute)
+             and n.func.attr == "set_state"]
+    if len(calls) != 1 or not calls[0].args or ast.unparse(calls[0].args[0]) != "StepState.PENDING":
+        raise TranslatorError("validate_dynamic_job: expected exactly one set_state(StepState.PENDING, ...)")
+    call = calls[0]
+    if call.keywords or len(call.args) > 2:
+        raise TranslatorError("validate_dynamic_job: set_state call not recognised")
+    if len(call.args) == 1:
+        return False
+    flag = ast.unparse(call.args[1])
+    if flag not in ("True", "False"):
+        raise TranslatorError(f"validate_dynamic_job: deferred flag is not a literal: {flag}")
+    return flag == "True"
+
+
 def _startup_sequence(tree):
     fn = find_function(tree, "resume_from_db")
     seq = []
@@ -362,6 +383,7 @@ def generate(check=True):
     keep_states = _stale_confirmation_states(ex_tree)
     if drops_stale != (keep_states is not None):
         raise TranslatorError("_run_hash_job / _is_stale_confirmation: inconsistent shapes")
+    validate_deferred = _validate_unchanged_deferred(ex_tree)
     st_tree = parse_module("stepup/core/startup.py")
     env_stores = _env_rescan_facts(st_tree)
     excluded, confirm_state = _rescan_files_facts(st_tree)
@@ -398,7 +420,8 @@ def generate(check=True):
     except KeyError as e:
         raise TranslatorError(f"_is_stale_confirmation: unknown FileState {e}") from e
     facts.update(rule=rule, rescan_excluded=excluded, confirm_state=confirm_state, startup=seq,
-                 transitions=len(table), env_stores=env_stores, drops_stale=drops_stale)
+                 transitions=len(table), env_stores=env_stores, drops_stale=drops_stale,
+                 validate_deferred=validate_deferred)
     out = [
         "(* GENERATED by translator/gen_noop.py from stepup/core/{executor,startup,workflow,enums}.py. Do not edit. *)",
         "From Coq Require Import List NArith Bool.",
@@ -420,6 +443,10 @@ def generate(check=True):
         "(* startup.rescan_env_vars: the transaction that marks the steps pending also stores the value",
         "   that was seen, so that the next start compares against it *)",
         f"Definition gen_env_rescan_stores_seen_value : bool := {'true' if env_stores else 'false'}.",
+        "",
+        "(* Executor.validate_dynamic_job, inputs unchanged: the step goes back to PENDING with this",
+        "   deferred flag (true since fix d760e3e) *)",
+        f"Definition gen_validate_unchanged_deferred : bool := {'true' if validate_deferred else 'false'}.",
         "",
         "(* startup.resume_from_db: 1 reset_interrupted_steps, 2 watch_known_dirs, 3 rescan_env_vars,",
         "   4 rescan_files, 5 rescan_nglobs *)",
